@@ -85,9 +85,11 @@ theorem lvRows_spec (lp : Nat → Option Nat) (vs : List Lv) :
                 exact ⟨s, e, hs, he, by omega, rfl⟩
         | succ j => simp only [List.getElem?_cons_succ] at hjv ⊢; exact hj j v' hjv
 
-/-- the table is refused with an error (not a panic) exactly because of a label without offset … -/
+/-- the table is refused with an error exactly because of a label without offset or a range that ends before it
+starts (`Labels::try_get_range`, f538c01) … -/
 theorem lvRows_err (lp : Nat → Option Nat) (vs : List Lv) :
-    lvRows lp vs = .error .err → ∃ v ∈ vs, lp v.start = none ∨ lp v.stop = none := by
+    lvRows lp vs = .error .err →
+      ∃ v ∈ vs, lp v.start = none ∨ lp v.stop = none ∨ ∃ s e, lp v.start = some s ∧ lp v.stop = some e ∧ e < s := by
   induction vs with
   | nil => intro h; simp [lvRows] at h
   | cons v vs ih =>
@@ -99,9 +101,13 @@ theorem lvRows_err (lp : Nat → Option Nat) (vs : List Lv) :
       unfold range at hr
       split at hr
       · exact ⟨v, List.mem_cons_self, Or.inl ‹_›⟩
-      · split at hr
-        · exact ⟨v, List.mem_cons_self, Or.inr ‹_›⟩
-        · split at hr <;> cases hr
+      · rename_i s hs
+        split at hr
+        · exact ⟨v, List.mem_cons_self, Or.inr (Or.inl ‹_›)⟩
+        · rename_i e he
+          split at hr
+          · exact ⟨v, List.mem_cons_self, Or.inr (Or.inr ⟨s, e, hs, he, ‹_›⟩)⟩
+          · cases hr
     · split at h
       · rename_i e hrest
         cases h
@@ -109,11 +115,10 @@ theorem lvRows_err (lp : Nat → Option Nat) (vs : List Lv) :
         exact ⟨v', List.mem_cons_of_mem _ hv', hp⟩
       · cases h
 
-/-- … and the unchecked `end - start` panics exactly for a range whose end lies before its start -/
-theorem lvRows_panic (lp : Nat → Option Nat) (vs : List Lv) :
-    lvRows lp vs = .error .panic → ∃ v ∈ vs, ∃ s e, lp v.start = some s ∧ lp v.stop = some e ∧ e < s := by
+/-- … and never panics (the `end - start` of `try_get_range` is checked since f538c01) -/
+theorem lvRows_no_panic (lp : Nat → Option Nat) (vs : List Lv) : lvRows lp vs ≠ .error .panic := by
   induction vs with
-  | nil => intro h; simp [lvRows] at h
+  | nil => simp [lvRows]
   | cons v vs ih =>
     intro h
     simp only [lvRows] at h
@@ -123,18 +128,13 @@ theorem lvRows_panic (lp : Nat → Option Nat) (vs : List Lv) :
       unfold range at hr
       split at hr
       · cases hr
-      · rename_i s hs
-        split at hr
+      · split at hr
         · cases hr
-        · rename_i e he
-          split at hr
-          · exact ⟨v, List.mem_cons_self, s, e, hs, he, ‹_›⟩
-          · cases hr
+        · split at hr <;> cases hr
     · split at h
       · rename_i e hrest
         cases h
-        obtain ⟨v', hv', hp⟩ := ih hrest
-        exact ⟨v', List.mem_cons_of_mem _ hv', hp⟩
+        exact ih hrest
       · cases h
 
 end CodeWrite
